@@ -23,7 +23,7 @@ CXX_vs    := $(CXX_GNU)
 CXX_tsan  := $(CXX_CLANG)
 
 FLAGS_plain := -O1 -g0
-FLAGS_asan  := -O1 -g1 -fsanitize=address,undefined -fno-sanitize=nonnull-attribute -fno-sanitize-recover=all -fno-omit-frame-pointer -DVERIF_ASAN
+FLAGS_asan  := -O1 -g1 -fsanitize=address,undefined -fno-sanitize=nonnull-attribute,null -fno-sanitize-recover=all -fno-omit-frame-pointer -DVERIF_ASAN
 FLAGS_omp   := -O1 -g0 -fopenmp -DVERIF_WITH_OMP
 FLAGS_mpi   := -O1 -g0 -DVERIF_WITH_MPI -I$(ROOT)/engine/minimpi
 FLAGS_vs    := -O1 -g0 -DVERIF_VSCHED
